@@ -125,6 +125,19 @@ def cobs(desc_term, rec):
     return f'({desc_term}, "{rec["attr"]}", {czl(rec["ret"])}, {sh}, {rbt})'
 
 
+class BadCallRaised(Exception):
+    pass
+
+
+class BadCallDidNotRaise(Exception):
+    pass
+
+
+def good_pairs(case, obs):
+    """(step, record) pairs the model is run on: calls with an invalid argument raised and changed nothing"""
+    return [(s, r) for s, r in zip(case["steps"], obs["steps"]) if s.get("bad") is None]
+
+
 # ------------------------------------------------------------------ blocks
 class Block:
     name = ""
@@ -163,7 +176,16 @@ class Block:
         return [b, case["static"]["num_outputs"]]
 
     def call(self, m, step):
-        return getattr(m, step["m"])(**{k: v for k, v in step.get("args", {}).items() if v is not None})
+        if step.get("bad") is not None:
+            # a call with an invalid argument (documented assertion / type error of the method): must raise, is caught by the
+            # caller like any user code would, and must leave the module exactly as it was — later mutations work as usual
+            try:
+                getattr(m, step["m"])(**step["bad"])
+            except Exception as e:  # noqa
+                raise BadCallRaised(f"{type(e).__name__}: {e}"[:200])
+            raise BadCallDidNotRaise(f"{step['m']}(**{step['bad']}) did not raise")
+        args = {k: (tuple(v) if isinstance(v, list) else v) for k, v in step.get("args", {}).items() if v is not None}
+        return getattr(m, step["m"])(**args)
 
     def observe_full(self, m, case, rec):
         rec["shapes"] = canon_shapes(m.state_dict(), self.strip)
@@ -256,6 +278,9 @@ class Block:
                     ret = self.call(m, step)
                 rec["attr"] = m.last_mutation_attr
                 rec["ret"] = [int(v) for v in ret.values()] if isinstance(ret, dict) else []
+            except BadCallRaised as e:
+                rec["bad_raised"] = str(e)
+                rec["attr"] = rec["attr"] or ""
             except Exception as e:  # noqa
                 rec["error"] = f"{type(e).__name__}: {e}"[:400]
             rec["used"] = sc.used
@@ -339,6 +364,12 @@ class Block:
                 out.append(Violation("valid", f"{sig}:{step['m']}:{kind}", f"{where}: {rec['error']}"))
                 break
             post = rec["desc"]
+            if step.get("bad") is not None:
+                if post != pre:
+                    out.append(Violation("valid", f"{sig}:{step['m']}:failed-call-changed-architecture",
+                                         f"{where}: the call with the invalid argument {step['bad']} raised ({rec.get('bad_raised')}) but changed the description to {post}"))
+                    break
+                continue
             if rec["attr"] and rec["attr"] not in obs["methods"]:
                 out.append(Violation("resolved-method", f"{sig}:{step['m']}:resolved", f"{where}: last_mutation_attr={rec['attr']} is not advertised"))
             # bounds: inside stays inside; outside never moves further out
@@ -456,7 +487,7 @@ class MLP(Block):
 
     def steps_term(self, case, obs):
         return "[" + "; ".join(f"({self.meth_term(s)}, {draws(s, 2)}, {cobs(czl(r['desc']['widths']), r)})"
-                               for s, r in zip(case["steps"], obs["steps"])) + "]"
+                               for s, r in good_pairs(case, obs)) + "]"
 
     def coq(self, case, obs):
         return (f"check_mlp {self.static_term(case['static'])} {self.cfg_term(case['cfg'])} {czl(case['init'])} "
@@ -497,7 +528,7 @@ class Scalar(Block):
     def coq(self, case, obs):
         steps = "[" + "; ".join(
             f"({self.meth_term(s)}, {draws(s, 1)}, {cobs('(' + cz(r['desc']['layers']) + ', ' + cz(r['desc']['widths'][0]) + ')', r)})"
-            for s, r in zip(case["steps"], obs["steps"])) + "]"
+            for s, r in good_pairs(case, obs)) + "]"
         a0 = f"{{| s_layers := {cz(case['init']['layers'])}; s_width := {cz(case['init']['width'])} |}}"
         return f"{self.check_fn} {self.static_term(case['static'])} {self.cfg_term(case['cfg'])} {a0} {cshapes0(case, obs)} {steps}"
 
@@ -586,7 +617,7 @@ def oracle_case(case, obs):
 
 
 def key_case(case):
-    k = {x: case.get(x) for x in ("block", "net", "obs", "space", "spec", "vector_mlp", "clone", "sibling", "twin", "static", "cfg", "init", "steps", "every")}
+    k = {x: case.get(x) for x in ("block", "net", "obs", "img", "space", "spec", "vector_mlp", "clone", "sibling", "twin", "static", "cfg", "init", "steps", "every")}
     return hashlib.sha1(json.dumps(k, sort_keys=True, default=str).encode()).hexdigest()
 
 
@@ -594,7 +625,7 @@ def _changes(case, obs):
     pre = obs["desc0"]
     last_guard = {}
     flags = []
-    for s, r in zip(case["steps"], obs["steps"]):
+    for s, r in good_pairs(case, obs):
         changed = r.get("desc") != pre
         resolved_self = (r.get("attr") == s["m"])
         g = (changed, resolved_self)
@@ -683,6 +714,12 @@ class CNN(Block):
                 exp[i] = k
             if post["kernels"] != exp or post["widths"] != pre["widths"] or post["strides"] != pre["strides"]:
                 out.append(("effective", f"change_kernel reported layer {i} -> kernel {k} but kernels {pre['kernels']} -> {post['kernels']}"))
+        ks = step.get("args", {}).get("kernel_size")
+        hl = step.get("args", {}).get("hidden_layer")
+        if rec["attr"] == "change_kernel" and ks is not None and hl is not None and 0 <= hl < len(post["kernels"]):
+            edge = ks[-1] if isinstance(ks, (list, tuple)) else ks
+            if post["kernels"][hl] not in (edge, pre["kernels"][hl]):
+                out.append(("effective", f"change_kernel(kernel_size={ks}, hidden_layer={hl}) installed edge length {post['kernels'][hl]}, advertised {edge}"))
         if rec["attr"] == "add_layer" and post["layers"] == pre["layers"] + 1:
             if post["widths"][:-1] != pre["widths"] or post["kernels"][:-1] != pre["kernels"] or post["strides"][:-1] != pre["strides"]:
                 out.append(("effective", f"add_layer changed existing layers: {pre} -> {post}"))
@@ -710,7 +747,10 @@ class CNN(Block):
         if m == "remove_layer":
             return "CRemoveLayer"
         if m == "change_kernel":
-            return f"(CChangeKernel {meth_args(step, ['kernel_size', 'hidden_layer'])})"
+            a = dict(step.get("args", {}))
+            if isinstance(a.get("kernel_size"), (list, tuple)):
+                a["kernel_size"] = a["kernel_size"][-1]       # the advertised meaning of a tuple: its edge length
+            return f"(CChangeKernel {meth_args({'args': a}, ['kernel_size', 'hidden_layer'])})"
         k = "CAddChannel" if m == "add_channel" else "CRemoveChannel"
         return f"({k} {meth_args(step, ['hidden_layer', 'numb_new_channels'])})"
 
@@ -718,7 +758,7 @@ class CNN(Block):
         steps = "[" + "; ".join(
             f"({self.meth_term(s)}, {draws(s, 2)}, "
             f"{cobs('(' + czl(r['desc']['widths']) + ', ' + czl(r['desc']['kernels']) + ', ' + czl(r['desc']['strides']) + ')', r)})"
-            for s, r in zip(case["steps"], obs["steps"])) + "]"
+            for s, r in good_pairs(case, obs)) + "]"
         return (f"check_cnn {self.static_term(case['static'])} {self.cfg_term(case['cfg'])} {self.arch_term(case['init'])} "
                 f"{cshapes0(case, obs)} {steps}")
 
@@ -766,6 +806,8 @@ class Net(Block):
 
     # ---- construction
     def space(self, case):
+        if case["obs"] == "image" and case.get("img"):
+            return spaces.Box(0, 1, tuple(case["img"]))       # non-square images
         return OBS[case["obs"]]()
 
     def action_space(self, case):
@@ -865,13 +907,18 @@ class Net(Block):
             obs["full0"]["rebuilt"] = "ok" if obs["full0"]["rebuilt"] == obs["shapes0"] else obs["full0"]["rebuilt"]
         every = case.get("every", 1)
         n = len(case["steps"])
+        seen_latent = False
+        if case.get("clone") == "once":          # clone first, then every mutation of the chain on that same clone
+            m = m.clone()
         for i, step in enumerate(case["steps"]):
             rec = {"error": None, "attr": None, "ret": [], "shapes": None, "rebuilt": None}
             sc = Script(step.get("r", []))
             try:
                 twin = m.clone() if case.get("twin") else None
                 ret = None
-                if case.get("clone", True):
+                rec["after_latent"] = seen_latent
+                seen_latent = seen_latent or (case.get("clone") == "once" and step["m"] in ("add_latent_node", "remove_latent_node") and step.get("bad") is None)
+                if case.get("clone", True) is True:
                     parent_sd = {k: v.clone() for k, v in m.state_dict().items()}
                     m = m.clone()                         # clone-and-mutate
                     csd = m.state_dict()
@@ -881,6 +928,9 @@ class Net(Block):
                     ret = self.call(m, step)
                 rec["attr"] = m.last_mutation_attr or ""
                 rec["ret"] = [int(v) for v in ret.values()] if isinstance(ret, dict) else []
+            except BadCallRaised as e:
+                rec["bad_raised"] = str(e)
+                rec["attr"] = rec["attr"] or ""
             except Exception as e:  # noqa
                 rec["error"] = f"{type(e).__name__}: {e}"[:400]
             rec["used"] = sc.used
@@ -962,7 +1012,7 @@ class Net(Block):
         if which == "head":
             return BLOCKS["mlp"], {"cfg": b, "static": {}}
         kind = {"vector": "mlp", "image": "cnn", "simba": "simba", "lstm": "lstm"}[case["obs"]]
-        return BLOCKS[kind], {"cfg": b, "static": {"input_shape": [2, 16, 16]}}
+        return BLOCKS[kind], {"cfg": b, "static": {"input_shape": list(case.get("img") or [2, 16, 16])}}
 
     def quantities(self, case, d):
         q = [("latent", d["latent"], case["cfg"]["min_latent_dim"], case["cfg"]["max_latent_dim"])]
@@ -993,6 +1043,10 @@ class Net(Block):
         if post[other] != pre[other] or post["latent"] != pre["latent"]:
             out.append(("effective", f"{m} changed another part of the network: {pre} -> {post}"))
         pref = "encoder." if which == "enc" else "head_net."
+        if attr == "" and rec.get("after_latent") and post == pre:
+            return out + [("effective", f"{m} on the same clone after a latent-width mutation changed nothing and reports no applied method "
+                           f"(the wrapper bound at construction still calls the sub-module that the latent mutation replaced)",
+                           f"net:same-clone-nested-after-latent:{which}")]
         if attr == "" and which == "head" and case["net"] == "stoch" and post == pre:
             blk0, pc0 = self.sub(case, "head")
             lo_l, hi_l = blk0.bounds(pc0)["layers"]
@@ -1046,7 +1100,8 @@ class Net(Block):
         ec, hc = case["cfg"]["encoder_config"], case["cfg"]["head_config"]
         o = case["obs"]
         if o == "image":
-            es = f"(SCnn 2 16 16 {coq_bool(ec.get('layer_norm', False))})"
+            ic, ih, iw = case.get("img") or [2, 16, 16]
+            es = f"(SCnn {ic} {ih} {iw} {coq_bool(ec.get('layer_norm', False))})"
         elif o == "simba":
             es = f"(SSimba 4 {cz(ec.get('scale_factor', 4))})"
         elif o == "lstm":
@@ -1104,7 +1159,7 @@ class Net(Block):
         self._obs = obs
         steps = "[" + "; ".join(
             f"({self.meth_term(case, s)}, {draws(s, 2)}, {cobs(self.arch_term(case, r['desc']), r)})"
-            for s, r in zip(case["steps"], obs["steps"])) + "]"
+            for s, r in good_pairs(case, obs)) + "]"
         t = (f"check_net {self.static_term(case)} {self.cfg_term(case)} {self.arch_term(case, case_init_desc(case))} "
              f"(Some {cshapes(obs['shapes0'])}) {steps}")
         if obs.get("enc_full") is not None and isinstance(obs.get("enc_full_rebuilt"), dict):
